@@ -16,8 +16,10 @@
   never needs two names for one object).  The methods that return *the operand
   itself* (`let({}, u)`, `copy(u, same manager)`) are modelled as returning an
   alias: no handle is created, no count changes.  "Copies of handles" that do
-  create a second `Function` on the same node are `_add_int(int(f))`,
-  `copy_bdd(f, f.bdd)`, `~ ~f`, `succ/low/high` of a parent, `true`/`false`.
+  create a second `Function` on the same node are `copy.copy(f)`
+  (`Function.__copy__`), `_add_int(int(f))`, `copy_bdd(f, f.bdd)`, `~ ~f`,
+  `succ/low/high` of a parent, `true`/`false`.  (`copy.deepcopy` and pickling of a
+  `Function` clone the manager as well; they are out of scope.)
 -/
 import DD.Apply
 open Std
@@ -295,6 +297,13 @@ def fApply (op : String) (hs : Nat) (ho : Option Nat) (h : Nat) : AM Int := do
   wrapF h r
   return r
 
+/-- `Function.__copy__` (`copy.copy(f)`): `Function(self.node, self.bdd)` — a new
+`Function` on the same node, with its own reference -/
+def fCopy (hs : Nat) (h : Nat) : AM Int := do
+  let s ← nodeOwn hs
+  wrapF h s
+  pure s
+
 /-- `Function.__eq__` (no temporaries) -/
 def fEq (hs ho : Nat) : AM Bool := do
   let s ← nodeOwn hs
@@ -325,10 +334,9 @@ def fLe (hs ho : Nat) : AM Bool := do
       pure n2) (drop t1)
   let t3 ← freshH
   AM.onErr (wrap t3 1) (drop t2)
-  let r := n2 == 1
   drop t2
   drop t3
-  return r
+  return n2 == 1
 
 /-- `Function.__lt__`: `self <= other and self != other` -/
 def fLt (hs ho : Nat) : AM Bool := do
